@@ -108,7 +108,9 @@ impl Check for Lattice {
         let y0 = prob.y0();
         let pr = prob.clone();
         let rhs: Rhs<f64> = Rc::new(move |t, y| Ok(pr.f(t, y)));
-        let lim = Limits { max_calls: 20_000_000, max_items: 3_000_000, extra_next: 0 };
+        // repaired solvers need at most 1e5 calls on the short intervals (3e6 on the long ones): the budget is 20x that,
+        // so that a solver that has stopped terminating is reported quickly instead of being waited for
+        let lim = Limits { max_calls: if p.r >= 1000.0 { 60_000_000 } else { 2_000_000 }, max_items: 3_000_000, extra_next: 0 };
         let out = solve::<f64>(p.solver, DimMode::Static, &cfg, &y0, rhs, &lim);
         structural(&mut o, p.solver, &cfg, &y0, &out, &|| format!("{:?}", p));
         o.sig = format!("{}|{}", p.solver.name(), gap_signature(p.solver, &cfg, &out));
